@@ -334,26 +334,18 @@ def run(check, an: Analysis):
 
 
 def _stored_source(path, index, value, depth=4):
-    """'none' / 'next-waiter' / 'other': where the value stored as owner comes from"""
-    if isinstance(value, ast.Constant) and value.value is None:
+    """'none' / 'next-waiter' / 'other': where the value stored as owner comes from (the
+    value that reaches the store on this path, through locals, helpers and their results)"""
+    if value is None:
+        return 'other'
+    found = rules.value_expr(path, index, value)
+    if isinstance(found, ast.Constant) and found.value is None:
         return 'none'
-    if isinstance(value, ast.Name) and depth > 0:
-        found = rules.reaching_store(path, index, value.id)
-        if found is None:
-            return 'other'
-        pos, store = found
-        stmt = store.data.get('stmt')
-        if isinstance(stmt, ast.Assign) and isinstance(stmt.value, ast.Call) and \
-                isinstance(stmt.value.func, ast.Attribute) and \
-                stmt.value.func.attr == '__awake_next__' and \
-                isinstance(stmt.targets[0], (ast.Tuple, ast.List)):
-            first = stmt.targets[0].elts[0]
-            return 'next-waiter' if isinstance(first, ast.Name) and first.id == value.id \
-                else 'other'
-        if store.data.get('value') is not None:
-            return _stored_source(path, pos, store['value'], depth - 1)
-        if isinstance(stmt, ast.Assign) and isinstance(stmt.value, ast.Name):
-            return _stored_source(path, pos, stmt.value, depth - 1)
+    if isinstance(found, ast.Subscript) and isinstance(found.slice, ast.Constant) and \
+            found.slice.value == 0 and isinstance(found.value, ast.Call) and \
+            isinstance(found.value.func, ast.Attribute) and \
+            found.value.func.attr == '__awake_next__' and not found.value.args:
+        return 'next-waiter'
     return 'other'
 
 
